@@ -47,6 +47,100 @@ def run(ctx):
         nviol += 1
         return ctx.report(key, what, {"component": "accept", "case": line, "text": text})
 
+    # --- (0) the statement parser model (Stmt.lean; theorem statement_parse_pp) <-> the real parser: every token string up to length 4
+    # (thorough 5) over the statement alphabet + printed random statement trees (derivable or not) and their token mutations; trees
+    # compared (expressions and declarations abstracted), verdicts compared
+    from .C06 import dump_to_sexpr, sx
+    ALPH = ["e", "d", "L", ";", "{", "}", "(", ")", ":", "if", "else", "switch", "case", "default", "while", "do", "for", "goto", "continue", "break", "return"]
+    SPELL_E = ["1", "x + 1", "! y", "2 * z"]
+    SPELL_D = ["int v ;", "static long w = 1 ;", "const char * p ;"]
+
+    def gen_stmt(d):
+        k = rng.randrange(20) if d > 0 else rng.randrange(8)
+        sub = lambda: gen_stmt(d - 1)
+        if k == 0: return ["e", ";"]
+        if k == 1: return [";"]
+        if k == 2: return ["d"]
+        if k == 3: return ["goto", "L", ";"]
+        if k == 4: return ["continue", ";"]
+        if k == 5: return ["break", ";"]
+        if k == 6: return ["return", ";"]
+        if k == 7: return ["return", "e", ";"]
+        if k == 8: return ["{"] + [t for _ in range(rng.randrange(0, 4)) for t in sub()] + ["}"]
+        if k in (9, 10): return ["if", "(", "e", ")"] + sub()
+        if k in (11, 12): return ["if", "(", "e", ")"] + sub() + ["else"] + sub()
+        if k == 13: return ["switch", "(", "e", ")"] + sub()
+        if k == 14: return ["case", "e", ":"] + sub()
+        if k == 15: return ["default", ":"] + sub()
+        if k == 16: return ["L", ":"] + sub()
+        if k == 17: return ["while", "(", "e", ")"] + sub()
+        if k == 18: return ["do"] + sub() + ["while", "(", "e", ")", ";"]
+        init = rng.choice([[";"], ["e", ";"], ["d"]])
+        return ["for", "("] + init + rng.choice([[], ["e"]]) + [";"] + rng.choice([[], ["e"]]) + [")"] + sub()
+
+    def render_s(toks):
+        return " ".join(rng.choice(SPELL_E) if t == "e" else rng.choice(SPELL_D) if t == "d" else "L1" if t == "L" else t for t in toks)
+    import itertools as _it
+    sstrings = []
+    for n_ in (1, 2, 3, 4) if ctx.quick else (1, 2, 3, 4, 5):
+        sstrings += [list(p_) for p_ in _it.product(ALPH, repeat=n_)] if n_ <= 3 or not ctx.quick else [[rng.choice(ALPH) for _ in range(4)] for _ in range(20000)]
+    for _ in range(3000 if ctx.quick else 60000):
+        t = gen_stmt(rng.choice([1, 2, 2, 3, 3, 4]))
+        if len(t) > 60:
+            continue
+        sstrings.append(t)
+        m_ = list(t)
+        for _ in range(rng.randrange(1, 3)):
+            j = rng.randrange(len(m_) + 1)
+            r_ = rng.random()
+            if r_ < 0.35 and m_: del m_[min(j, len(m_) - 1)]
+            elif r_ < 0.7: m_.insert(j, rng.choice(ALPH))
+            elif m_: m_[min(j, len(m_) - 1)] = rng.choice(ALPH)
+        if m_:
+            sstrings.append(m_)
+    # a declaration token of the model is a keyword-started declaration: `L` (an identifier) directly in front of `d`, an expression or
+    # another identifier would make identifier-started declarations / juxtapositions the model does not have (C09's ground)
+    sstrings = [t for t in sstrings if not any(t[j] == "L" and not ((j + 1 < len(t) and t[j + 1] == ":" and not (j and t[j - 1] in ("goto", "case"))) or (j and t[j - 1] == "goto" and j + 1 < len(t) and t[j + 1] == ";")) for j in range(len(t)))]
+    # an expression is ONE token of the model: a `(` that does not follow if / switch / while / for would begin (or continue, as a call) an expression
+    sstrings = [t for t in sstrings if not any(t[j] == "(" and not (j and t[j - 1] in ("if", "switch", "while", "for")) for j in range(len(t)))]
+    stexts = [render_s(t) for t in sstrings]
+    slines = ["2,1,0,2,%s s %s" % ("d" * 31, t.encode().hex()) for t in stexts]
+    simpl = stages.run_harness(ctx, "tree", slines)
+    smodel = leanb.model("stmt", "\n".join(" ".join(t) for t in sstrings) + "\n")
+    EXPRK = re.compile(r"Expression$|^IdentifierName$|Constant")
+
+    def norms(e):
+        if EXPRK.search(e[0]) and e[0] != "ExpressionStatement": return ("e",)
+        if e[0] == "DeclarationStatement": return ("d",)
+        return (e[0],) + tuple(norms(c) for c in e[1:])
+    ns_ok = ns_fail = ns_dis = 0
+    for t, txt, i, m, l in zip(sstrings, stexts, simpl, smodel, slines):
+        if i.startswith(("CRASH", "HANG")):
+            viol("crash:" + txt[:80], "parsing the statement %r: %s" % (txt, i[:200]), txt, l); continue
+        try:
+            ntok = int(i.split(" ;")[0]) - 2          # the dump starts with the token count (a leading marker and EOF included)
+        except ValueError:
+            ntok = -1
+        # the placement diagnostics (case / default / continue / break outside their construct) are StmtCtx's subject, not the shape's
+        diags = ",".join(x for x in i.split(" | ")[-1].split(",") if not x.startswith(("Parser-308", "Parser-309", "Parser-310", "Parser-311"))) or "-"
+        full = re.search(r"N0 \w+ f1 l%d " % ntok, i) is not None
+        got = dump_to_sexpr(i) if diags == "-" and full else None
+        gs = sx(norms(got)) if got else "FAIL"
+        ms = m if m in ("FAIL", "UNMODELLED") else m[2:]
+        if ms == "UNMODELLED":
+            continue
+        if ms == "FAIL": ns_fail += 1
+        else: ns_ok += 1
+        if gs != ms:
+            ns_dis += 1
+            derivable = m.startswith("1 ")
+            if ns_dis <= 4:
+                ctx.report(("stmt:" if derivable else "stmt-corr:") + txt[:100],
+                           "statement %r: the parser built %s, %s %s" % (txt, gs, "the grammar (Lean model of the statement parser, proved to invert the grammar's printing) gives" if derivable else "the Lean model of the statement parser gives", ms),
+                           {"component": "tree", "case": l, "impl": gs, "model": ms, "tokens": " ".join(t)}, no_input=not derivable)
+            if derivable:
+                nviol += 1
+    ctx.notes["statement_model"] = {"strings": len(sstrings), "parsed_by_both": ns_ok, "rejected_by_model": ns_fail, "disagreements": ns_dis}
     # --- (1) operator+ : complete translation validation
     impl_tab = stages.run_harness(ctx, "accept", ["ctxadd"])[0].strip()
     model_tab = leanb.model("stmtctx", "ctxadd\n")[0].strip()
